@@ -145,6 +145,15 @@ def valid_pool(name, rng, size):
             if runs:
                 i = rng.choice(runs[:1] + runs)
                 cands.append(s[:i] + "0" + s[i:])
+        if rng.random() < 0.35:
+            # one letter in the other case, and the next letter in that case (1.0a / 1.0A / 1.0B: where a comparison folds
+            # case in one place and not in another, a third version lies between the two)
+            idx = [i for i, ch in enumerate(s) if ch.isalpha() and ch.isascii()]
+            if idx:
+                i = rng.choice(idx[-2:])
+                sw = s[:i] + s[i].swapcase() + s[i + 1:]
+                nxt = {"z": "y", "Z": "Y"}.get(sw[i], chr(ord(sw[i]) + 1))
+                cands += [sw, sw[:i] + nxt + sw[i + 1:]]
         if rng.random() < 0.4:
             # the same base with other short endings of the scheme and with a short prefix (harness/pools.py)
             from harness import pools
